@@ -2,7 +2,7 @@
    evaluated by the check on each observation is implied by the theorems (so a verdict "predicate
    fails" can never be caused by the model-conforming code). *)
 From SC Require Import Base.Prelude Excess.Change Excess.MergeExcess Excess.DropExcess
-  Excess.MergeProofs Excess.DropProofs Excess.C09Judge.
+  Excess.MergeProofs Excess.DropProofs Excess.ChangesAfter Excess.ChangesAfterProofs Excess.Pipeline Excess.PipelineProofs Excess.C09Judge.
 
 Lemma change_eqb_refl : forall c, change_eqb c c = true.
 Proof.
@@ -131,7 +131,7 @@ Theorem judge_sound : forall c,
   agrees c = true -> C09_guard c = true ->
   match c with KMerge _ _ | KDrop _ _ | KRow _ _ _ _ => C09_ok c = true | _ => True end.
 Proof.
-  intros c A G. destruct c as [acts os|acts os|a b out send| | | |]; auto.
+  intros c A G. destruct c as [acts os|acts os|a b out send| | | | | | |]; auto.
   - cbn [agrees] in A. cbn [C09_guard] in G. cbn [C09_ok].
     assert (E : os = snd (m_run m_init acts)).
     { revert A. generalize (snd (m_run m_init acts)). clear G.
@@ -163,4 +163,49 @@ Proof.
       apply Z.eqb_eq in H1, H2, H5. apply Bool.eqb_prop in H6, H7.
       apply oz_eqb_eq in H3, H4. congruence. }
     subst m. exact R.
+Qed.
+
+Lemma obs_list_eqb_eq : forall os os', list_eqb obs_eqb os os' = true -> os = os'.
+Proof.
+  induction os as [|o os IH]; intros [|o' os'] A; simpl in A; try discriminate; auto.
+  apply andb_true_iff in A. destruct A as [A1 A2]. f_equal; [|apply IH; exact A2].
+  destruct o, o'; simpl in A1; try discriminate; auto.
+  f_equal. apply change_eqb_eq. exact A1.
+Qed.
+
+(* KLossy: the assembled lossy front, any arrival order that keeps the per-id order *)
+Theorem judge_sound_lossy : forall seeded hist acts os,
+  agrees (KLossy seeded hist acts os) = true -> C09_guard (KLossy seeded hist acts os) = true ->
+  C09_ok (KLossy seeded hist acts os) = true.
+Proof.
+  intros seeded hist acts os A G. cbn [agrees C09_guard C09_ok] in *. unfold lossy_ok.
+  destruct (l_strip seeded acts os) as [os'|]; [|discriminate].
+  apply obs_list_eqb_eq in A. subst os'.
+  unfold lossy_guard in G. apply andb_true_iff in G. destruct G as [G1 G2].
+  apply per_id_sameb_sound in G1.
+  destruct (reorder_preserves _ _ _ G1 G2) as [V _].
+  apply walk_model.
+  - apply inv_init.
+  - apply no_close_l_proj.
+  - rewrite sent_of_l_proj. exact V.
+  - simpl. lia.
+  - intros c E. discriminate.
+Qed.
+
+(* KPipe, no backpressure: an accepted (drained) trace inside the guard has the fold clauses of the
+   oracle; the seed count and `blocked` are direct observations *)
+Theorem judge_sound_pipe : forall seeded nseed fuel hist es blocked,
+  agrees (KPipe false seeded nseed fuel hist es blocked) = true ->
+  C09_guard (KPipe false seeded nseed fuel hist es blocked) = true ->
+  blocked = false /\
+  valid_script (recvd_of es) (seed_view seeded hist) = true /\
+  views_eqb (ids_of (map pchange hist)) (fold_view (recvd_of es) (seed_view seeded hist))
+            (fold_view (changes_after seeded hist) (seed_view seeded hist)) = true.
+Proof.
+  intros seeded nseed fuel hist es blocked A G. cbn [agrees C09_guard] in *.
+  apply andb_true_iff in A. destruct A as [A1 A2]. apply negb_true_iff in A1. subst blocked.
+  unfold lossy_guard in G. apply andb_true_iff in G. destruct G as [G1 G2].
+  apply per_id_sameb_sound in G1.
+  destruct (pipe_agrees_drained_sound fuel seeded nseed hist es _ A2 G1 G2) as [V F].
+  split; [reflexivity|]. split; [exact V|]. apply views_eqb_same. exact F.
 Qed.
